@@ -23,6 +23,10 @@ func main() {
 		cmdCheck(os.Args[2:])
 	case "replay":
 		cmdReplay(os.Args[2:])
+	case "trace":
+		cmdTrace(os.Args[2:])
+	case "bmc":
+		cmdBMC(os.Args[2:])
 	default:
 		fmt.Fprintln(os.Stderr, "unknown command", os.Args[1])
 		os.Exit(2)
@@ -97,5 +101,72 @@ func cmdRun(args []string) {
 		for k, v := range res.Stubs {
 			fmt.Printf("  stub %s x%d\n", k, v)
 		}
+	}
+}
+
+// cmdTrace: print the event trees of a concurrent harness (development aid).
+func cmdTrace(args []string) {
+	fs := flag.NewFlagSet("trace", flag.ExitOnError)
+	repo := fs.String("repo", "/repo/v4", "module root")
+	hdir := fs.String("harness", "/verif/harness", "harness overlay directory")
+	name := fs.String("fn", "", "harness function")
+	params := fs.String("params", "", "")
+	thread := fs.Int("thread", 0, "")
+	fs.Parse(args)
+	pr, err := loadProgram(*repo, *hdir)
+	if err != nil {
+		fmt.Fprintln(os.Stderr, "load:", err)
+		os.Exit(2)
+	}
+	var ps []int
+	for _, s := range strings.Split(*params, ",") {
+		v, _ := strconv.Atoi(s)
+		ps = append(ps, v)
+	}
+	cfg := sym.RunConfig{PkgPath: pr.ModPath + "/zzvh", Harness: *name, Params: ps, MaxSteps: 5000000, MaxDepth: 400, MaxMake: 64,
+		Workers: 4, SolverBin: "z3", TimeoutMs: 20000, MapOrderMax: 3, TraceOn: true, TraceThread: *thread, MaxEvents: 120}
+	res := pr.Run(cfg)
+	fmt.Println(res.Summary())
+	for _, a := range res.Aborts {
+		fmt.Println("  ABORT", a.Label, a.Detail)
+	}
+	for i, tr := range res.Traces {
+		fmt.Printf("path %d:\n", i)
+		for _, e := range tr {
+			fmt.Printf("   %s\n", sym.EventString(e))
+		}
+	}
+	if res.TraceMeta != nil {
+		fmt.Printf("meta: threads=%d chans=%v seqs=%v cells=%v wgs=%v mutexes=%d\n", res.TraceMeta.NThreads, res.TraceMeta.Chans, res.TraceMeta.Seqs, res.TraceMeta.Cells, res.TraceMeta.WGs, res.TraceMeta.NMutex)
+	}
+}
+
+// cmdBMC: extract the thread trees of a concurrent harness and model check them (development aid).
+func cmdBMC(args []string) {
+	fs := flag.NewFlagSet("bmc", flag.ExitOnError)
+	repo := fs.String("repo", "/repo/v4", "module root")
+	hdir := fs.String("harness", "/verif/harness", "harness overlay directory")
+	name := fs.String("fn", "", "harness function")
+	params := fs.String("params", "", "")
+	solver := fs.String("solver", "z3", "")
+	maxEv := fs.Int("maxevents", 400, "")
+	fs.Parse(args)
+	pr, err := loadProgram(*repo, *hdir)
+	if err != nil {
+		fmt.Fprintln(os.Stderr, "load:", err)
+		os.Exit(2)
+	}
+	var ps []int
+	for _, s := range strings.Split(*params, ",") {
+		v, _ := strconv.Atoi(s)
+		ps = append(ps, v)
+	}
+	r := sym.ModelCheck(pr, pr.ModPath+"/zzvh", *name, ps, *solver, 120000, true, *maxEv)
+	fmt.Printf("verdict=%s kind=%s steps=%d transitions=%d statevars=%d queries=%d solver=%.2fs %s\n", r.Verdict, r.Kind, r.Steps, r.Transitions, r.StateVars, r.Queries, r.SolverS, r.Detail)
+	for _, n := range r.Notes {
+		fmt.Println("  note:", n)
+	}
+	for _, l := range r.TraceText {
+		fmt.Println("  ", l)
 	}
 }
